@@ -123,9 +123,10 @@ Definition queue_of_events (es : list ev) : list dpkg * nat :=
                           | _ => acc
                           end) es ([], O).
 
+(* outcomes: 1 (true, nil); 2 (false, io.EOF); 3 (false, error); 4 (true, error); 5 (true, io.EOF): the error decides *)
 Definition call_cb (k outcome : Z) : option (nat -> dpkg -> cbres) :=
   Some (fun nc _ => if (outcome =? 0) then CbContinue
-                    else if Z.of_nat nc =? k then (if outcome =? 1 then CbStop else if outcome =? 2 then CbEof else CbErr)
+                    else if Z.of_nat nc =? k then (if outcome =? 1 then CbStop else if (outcome =? 2) || (outcome =? 5) then CbEof else CbErr)
                     else CbContinue).
 
 Definition run_call (q : list dpkg) (errs : nat) (c : tree) : tree * list dpkg * nat :=
